@@ -7,6 +7,18 @@ hooks = subprocess.run(["git", "-C", "/repo", "log", "--format=%h %s"], capture_
 hook_commits = [l.split()[0] for l in hooks if "verif hooks" in l]
 
 CLAIMS = {
+ "C01": dict(
+   text="(1) The per-key sequential specification, the definition of linearizability (real-time-respecting legal permutation) and a Wing-Gong checker lin_b are Coq definitions; lin_b is proved sound (Qed). Every history the implementation produces in the scheduled runs is exported and certified by evaluating lin_b inside Coq (vm_compute), together with the final read of every key, so each explored execution is kernel-certified linearizable - independently of the harness's own Rust checker, whose verdicts must agree. (2) The unbounded statement - every schedule of every program is linearizable - is a theorem over the executable list-bin protocol model Model/BinProto.v (one step per shared-memory operation, any hash function, table size, thread count); its proof (Proofs/BinProtoProofs.v) is in progress, see evidence for the theorems currently pinned. Implementation side: programs over all eight per-key operations, both facades, map of 1/2/16/64 bins, constant / same-bin / identity hashers, racing multi-helper resizes and tree-bin restructuring, preemption at every shared operation including inside critical sections.",
+   note="the model theorem covers stage S1 (list bins, no resize); resizes and tree bins are covered by the certified histories of the implementation only; linearizability is checked per key (locality); sequentially consistent interleavings only (see C15)",
+   tech="Coq: sound linearizability checker evaluated on every explored implementation history + protocol-model theorem (in progress); deterministic-scheduler exploration of the real crate", ref="DESIGN.md 5/C01, appendix D"),
+ "C08": dict(
+   text="Coq theorems: the specification of compute_if_present used by the linearizability checker is an atomic read-modify-write (the callback value is the value current at the linearization point, its result replaces exactly that value; kapply_compute), n increments linearized in any order from c end at c+n (no lost update), and the checker is sound; every explored history of the implementation (counter programs with 2-4 threads, compute racing insert/remove/resize, list and tree bins) is certified by lin_b inside Coq; the harness additionally counts callback invocations per call (at most once, exactly once if present).",
+   note="unbounded-schedule statement rests on the BinProto theorem (stage S1, in progress); tree-bin and resize cases are covered by certified histories only",
+   tech="Coq proof (spec-level lemmas + sound checker evaluated on implementation histories) + scheduler exploration", ref="DESIGN.md 5/C08"),
+ "C13": dict(
+   text="Coq theorems: in the specification a retain removal is a compare-and-remove (takes effect only if the value is still the inspected one, otherwise nothing changes) and a retain_force removal always removes; checker soundness. Every explored history of the implementation in which retain/retain_force race inserts, replacements, computes and removals of the inspected keys is certified linearizable against that specification inside Coq; the predicate's (key, value, verdict) log is what the conditional removals are built from.",
+   note="the interval of a conditional removal is taken from the predicate call to the next predicate call (or the end of retain); unbounded-schedule statement rests on the protocol-model theorem",
+   tech="Coq proof (spec lemmas + sound checker on implementation histories) + scheduler exploration", ref="DESIGN.md 5/C13"),
  "C11": dict(
    text="Coq theorems (Proofs/TreeLockProofs.v) over an executable step-by-step model of the tree-bin read-write lock (lock_root/contended_lock/unlock_root, TreeBin::find's read-lock attempt; sticky park tokens), for any number of readers, writer rounds and ANY schedule: mutual exclusion of tree restructuring and tree readers, no lost wake-up (a parked writer without a token always has a reader on its way to unpark it; the window between the WAITER CAS and the waiter swap is covered), deadlock freedom (some unfinished thread is always enabled), the blind-spin branch is unreachable, and termination: an explicit measure strictly decreased by every step of an enabled thread, hence a bound on all runs. The model's bit tests and CAS operands are the expressions regenerated from node.rs (obligation C11_model_uses_code_tests). The implementation side: scheduled runs of the real crate (hooks at every shared operation, lock acquisition, park/unpark, spin) report deadlock (all unfinished threads blocked) or step-limit (livelock) verdicts.",
    note="sequentially consistent model (candidate K1 - Acquire re-read after the SeqCst waiter swap - is outside it); bin-mutex ordering (at most one bin lock held) and the init_table spin are covered by the scheduler verdicts only, not by a theorem yet; liveness is stated for finite programs",
